@@ -993,6 +993,70 @@ func styleOut(c StyleCase, thorough bool) bool {
 
 // ---------------------------------------------------------------------------
 
+// ---------------------------------------------------------------------------
+// the string helpers are pure: concurrent callers, each with a string of its own, get what they get alone
+
+type ParCase struct {
+	H    int `json:"h"`
+	Size int `json:"size"`
+	W    int `json:"workers"`
+}
+
+var parNames = []string{"ToLower", "ToUpper", "Capitalize", "ReverseStr", "CamelCase", "SnakeCase", "KebabCase", "Pad", "Wrap+Unwrap", "WrapAllRune", "Substr", "SplitAtIndex"}
+
+func parText(w, size int) string {
+	units := []string{"aBc", "Ö", "x1_", "世", "Q-", "é ", "zz", "😀"}
+	var b strings.Builder
+	for i := 0; b.Len() < size; i++ {
+		b.WriteString(units[(i*(w+2)+w)%len(units)])
+		if i%7 == w%7 {
+			b.WriteByte(byte('A' + (i+w)%26))
+		}
+	}
+	return b.String()
+}
+
+func parProp(c ParCase, r *pbt.R) error {
+	h := ((c.H % len(parNames)) + len(parNames)) % len(parNames)
+	size := 64 + ((c.Size%60000)+60000)%60000
+	workers := 2 + ((c.W%7)+7)%7
+	f := func(w int) string {
+		in := parText(w, size)
+		switch h {
+		case 0:
+			return pbt.Digest(gogu.ToLower(in))
+		case 1:
+			return pbt.Digest(gogu.ToUpper(in))
+		case 2:
+			return pbt.Digest(gogu.Capitalize(in))
+		case 3:
+			return pbt.Digest(gogu.ReverseStr(in))
+		case 4:
+			return pbt.Digest(gogu.CamelCase(in))
+		case 5:
+			return pbt.Digest(gogu.SnakeCase(in))
+		case 6:
+			return pbt.Digest(gogu.KebabCase(in))
+		case 7:
+			return pbt.Digest(gogu.Pad(in, len(in)+9+w, "-=")) + pbt.Digest(gogu.PadLeft(in, len(in)+3+w, "ab"))
+		case 8:
+			return pbt.Digest(gogu.Unwrap(gogu.Wrap(in, "**"), "**"))
+		case 9:
+			return pbt.Digest(gogu.WrapAllRune(in, "'"))
+		case 10:
+			return pbt.Digest(gogu.Substr(in, 3+w, size/2))
+		default:
+			return pbt.Digest(gogu.SplitAtIndex(in, size/3+w))
+		}
+	}
+	if err := pbt.Concurrently(workers, 4, f); err != nil {
+		return fmt.Errorf("%s on strings of about %d bytes: %v", parNames[h], size, err)
+	}
+	r.NonTrivial()
+	r.Label(parNames[h])
+	return nil
+}
+
 func TestProp(t *testing.T) {
 	// tiny live heap, millions of short-lived strings: collect less often
 	defer debug.SetGCPercent(debug.SetGCPercent(800))
@@ -1050,6 +1114,14 @@ func TestProp(t *testing.T) {
 				"Non-trivial = two or more words or a lower->UPPER transition inside a word.",
 			Enum: styleEnum, Gen: styleGen, Prop: styleProp, OutOfEnum: styleOut,
 			RapidQuick: 1000, RapidThorough: 10000,
+		},
+		&pbt.Check[ParCase]{
+			Name: "parallel",
+			Rule: "the string helpers are pure functions: 2..8 goroutines call one of ToLower, ToUpper, Capitalize, ReverseStr, CamelCase, SnakeCase, KebabCase, Pad/PadLeft, Wrap+Unwrap, WrapAllRune, Substr, SplitAtIndex at the same time (real scheduler), each on a mixed ASCII / multi-byte string of its own of 64..60000 bytes, four times; every answer must equal the answer of the same call running alone. Non-trivial = every case.",
+			Gen:        func(s pbt.Src, _ bool) ParCase { return ParCase{H: s.Intn(len(parNames)), Size: pbt.Pick(s, 100, 3000, 20000, 60000), W: s.Intn(7)} },
+			Prop:       parProp,
+			OutOfEnum:  func(ParCase, bool) bool { return true },
+			RapidQuick: 12, RapidThorough: 150,
 		},
 	)
 }
